@@ -43,7 +43,7 @@ Section G.
     if_condition w r c =
     match eval_raw w r c with
     | Ok v => Ok (negb (v =? 0))
-    | Err ESymbol | Err EKey => Ok false
+    | Err ESymbol => Ok false
     | Err k => Err k
     | OutOfFuel => OutOfFuel
     end.
